@@ -163,12 +163,12 @@ def encode_mt(s):
 
 def encode_lp(s):
     name = s.get('name', '')
-    namelen = s.get('namelen', (len(name) + 3) // 4 * 4)
+    namelen = s.get('namelen', len(name))
     targets = s.get('targets', [])
     body = _be(s.get('partid', 0x0102), 2) + _be(namelen, 1) + _be(len(targets) & 0xff, 1) + \
         _be(s.get('logid', 0x0A0B0C0D), 4) + _txt(name, namelen) + b''.join(_be(t, 2) for t in targets)
-    if len(targets) % 2:
-        body += _be(0, 2)
+    # sections are 4-byte aligned: pad, counted in the section length, up to the next multiple of 4 ('pad' overrides)
+    body += bytes(s.get('pad', -len(body) % 4))
     return sec_header(s, 8 + len(body)) + body
 
 
@@ -383,7 +383,7 @@ def check_lp(s, doc, creator, env):
     m = Mismatch()
     std3(m, s, doc, creator, env)
     name = s.get('name', '')
-    namelen = s.get('namelen', (len(name) + 3) // 4 * 4)
+    namelen = s.get('namelen', len(name))
     targets = s.get('targets', [])
     m.need(doc, 'Primary Partition ID', hexnum(s.get('partid', 0x0102)), s.get('partid', 0x0102))
     m.need(doc, 'Length of LP Name', hexnum(namelen), namelen)
@@ -584,7 +584,7 @@ def base_pel_specs():
         'SS': {'t': 'SS', 'ascii': 'BC8A0A01'.ljust(32), 'callouts': [CALLOUT_PROC]},
         'EH': {'t': 'EH', 'sym': 'BD8D1234_2A0B0003'},
         'MT': {'t': 'MT'},
-        'LP': {'t': 'LP', 'name': 'lpar', 'targets': [0x0001]},
+        'LP': {'t': 'LP', 'name': 'lpar5', 'targets': [0x0001]},  # 23 bytes of content + 1 pad byte
         'UDj': ud_json, 'UDt': ud_text, 'UDh': ud_hex,
         'ED': {'t': 'ED', 'creator': 'B', 'comp': 0x0100, 'payload': bytes(range(40, 60)).hex()},
         'DH': {'t': 'DH', 'payload': bytes(range(16)).hex()},
